@@ -163,6 +163,9 @@ Edits(d) ==
                                            /\ RangesOf(DeclOf(d, f.type)) # <<>>)}
   \cup {E(21, p, AddCons(d, p[1], MkCons(CF(d, p).id, <<1>>, "")))
           : p \in CSites(d, LAMBDA c, f : f.kind = "typedef" /\ KindOf(d, f.type) \in {"struct", "custom"} /\ f.cond = "")}
+  (* ... the same with a tag instead of an integer *)
+  \cup {E(21, p \o <<"tag">>, AddCons(d, p[1], MkCons(CF(d, p).id, <<>>, "ZZ_TAG")))
+          : p \in CSites(d, LAMBDA c, f : f.kind = "typedef" /\ KindOf(d, f.type) \in {"struct", "custom"} /\ f.cond = "")}
   \cup {E(22, <<c>>, AddCons(d, c, d.decls[c].cons[1])) : c \in {k \in Kids(d) : d.decls[k].cons # <<>>}}
   (* ... or repeats a constraint made by *any* ancestor, however far up *)
   \cup {E(22, p, AddCons(d, p[1], AncestorCons(d, d.decls[p[1]].parent, 8)[p[2]]))
